@@ -581,10 +581,20 @@ class DimensionValue(Value):
             item = seq[0]
 
             sign, v, d = self.__reUnNumDim.findall(normalize(item.value))[0]
-            if '.' in v:
-                val = float(sign + v)
-            else:
-                val = int(sign + v)
+            try:
+                if '.' in v:
+                    val = float(sign + v)
+                    if val in (float('inf'), float('-inf')):
+                        raise ValueError('out of range')
+                else:
+                    # may be longer than Python converts
+                    val = int(sign + v)
+            except ValueError:
+                self.wellformed = False
+                self._log.error(
+                    'DimensionValue: Number out of range: %s...' % item.value[:20]
+                )
+                return
 
             dim = None
             if d:
